@@ -24,7 +24,7 @@ CLAIMS = {
           "Coq proof of skeleton invariants over R + bit-exact correspondence", "3/C03", True),
  "C04": C("Coq theorems: on binary64 a NaN error norm fails every comparison and Rust's min/max drop NaN (Floats.FloatAxioms), rejections never enlarge the step (real semantics), a finite budget bounds the number of attempts. Float-level termination with an unlimited budget is not proved: watchdog runs on pathological problems (blow-up, discontinuous, NaN-/inf-returning right-hand sides; also combined with a min_step) plus the regression corpus." + TIE,
           "Coq proof of the termination mechanism + watchdog differential runs", "3/C04", True),
- "C05": C("Coq theorems: (any number type, any interpolant) the t_eval scan of an accepted step consumes exactly the pending requested times not beyond the step end and reports, in order, bit for bit and with the interpolant's value, those not before the step start; (reals, whole run) for any slack >= 0, any chain of accepted steps in either direction with any interpolants and any requested times sorted in the direction of integration inside the span, the initial callback plus the per-step scans report exactly the requested list -- same values, order, duplicates, nothing skipped or added -- with one state per time; the handler's `sample` is those scans. Not theorems: the terminal-event branch with t_eval, independence of dense_output (replay), and number types with rounding." + TIE + " Grid-aware placements (inside, on a boundary, +-1 ulp, +-1e-12, +-1e-9).",
+ "C05": C("Coq theorems: (any number type, any interpolant) the t_eval scan of an accepted step consumes exactly the pending requested times not beyond the step end and reports, in order, bit for bit and with the interpolant's value, those not before the step start; (reals, whole run) for any slack >= 0, any chain of accepted steps in either direction with any interpolants and any requested times sorted in the direction of integration inside the span, the initial callback plus the per-step scans report exactly the requested list -- same values, order, duplicates, nothing skipped or added -- with one state per time; the handler's `sample` is those scans; (any number type) the scan made when a terminal event stops the run consumes exactly the pending requested times not beyond the event time and reports, in order and with the interpolant's value, those not before the step start -- none beyond the event. Not theorems: the whole-run statement with a terminal event, independence of dense_output (replay), and number types with rounding." + TIE + " Grid-aware placements (inside, on a boundary, +-1 ulp, +-1e-12, +-1e-9).",
           "Coq proof of the sampling loop and of the whole-run invariant + bit-exact correspondence", "3/C05", True),
  "C06": C("Coq theorems over the reals, every dimension n, every h<>0 of either sign, every value of the stage derivatives: the DOPRI5, DOP853, RK4 and RK23 interpolants equal the old state at the left end and the new state at the right end of the step (RK23 via the exact rationals of the source constants), the Radau collocation polynomial (coefficient blocks built as in the accepted branch) equals the old state at the left end and y+Z3 at the right end; on a contiguous chain of segments sol(t) is evaluated for every t between the first and last covered time by a segment containing t, is OutOfRange outside and NotEnabled without dense output; the handler stores exactly the step's interpolant. Not proved: the BDF difference polynomial (history rescaling) -- replay + oracle only." + TIE,
           "Coq proof (interpolant endpoint identities, no-gap lookup) + bit-exact correspondence + dense-output oracles", "3/C06", True),
